@@ -202,6 +202,11 @@ func c14sScenario(p c14sParams) *explore.Scenario {
 			}
 			// let every connection goroutine finish: they all end by themselves because the clients close
 			vrt.Sleep("settle", 30*time.Second)
+			if b := vrt.BlockedOnLocks(); b != "" {
+				// (reported here rather than by waiting for the native clients' time-outs)
+				vrt.Failf("deadlock", "30 s after the last socket arrived nothing is runnable and goroutines of the server still wait for a lock whose holder is blocked itself: %s", b)
+				return
+			}
 			// sockets the accept loop never took (it stopped accepting): hang up, so that their clients do not wait
 			for vl.ch.Len("unclaimed") > 0 {
 				if sc := vl.ch.Recv("unclaimed"); sc != nil {
